@@ -317,4 +317,27 @@ example : (run (Heap.empty : Heap Nat) [.new, .pb 0 1, .pb 0 2, .clone 0, .tail 
     ((run (Heap.empty : Heap Nat) [.new, .pb 0 1, .pb 0 2, .clone 0, .tail 1]).1.strong 0 = 2) := by
   decide
 
+/-- **Equality is equality of the sequences.**  For two handles that satisfy the representation invariant (every
+live handle of every reachable heap does: `run_refines`), `==` on the shared-storage representation — lengths, then
+elements pairwise — is equality of the two plain sequences the handles hold, for any element equality `beq`,
+reflexive or not.  In particular the answer does not depend on whether the handles share an allocation or a view
+(the pinned code answered `true` for shared storage without looking at the elements, which is wrong for `[NaN]`;
+repaired by numbat 2bb906d, and compared on the real interpreter by the language-level stream). -/
+theorem eq_is_sequence_equality (beq : α → α → Bool) {allocs : List (List α)} {a b : Handle}
+    (ha : HandleOK allocs a) (hb : HandleOK allocs b) :
+    eqHandles beq allocs a b = seqEq beq (contents allocs a) (contents allocs b) := by
+  unfold eqHandles
+  rw [lenOf_eq_length ha, lenOf_eq_length hb]
+  by_cases hl : (contents allocs a).length = (contents allocs b).length
+  · rw [zip_all_eq_seqEq beq _ _ hl]; simp [hl]
+  · have : seqEq beq (contents allocs a) (contents allocs b) = false := by
+      cases hs : seqEq beq (contents allocs a) (contents allocs b) with
+      | false => rfl
+      | true => exact absurd (seqEq_length hs) hl
+    rw [this]
+    simp [hl]
+
+/-- non-vacuity: a shared one-element list whose element is not equal to itself is not equal to itself -/
+example : eqHandles (fun (_ _ : Nat) => false) [[7]] ⟨0, none⟩ ⟨0, none⟩ = false := by decide
+
 end NumbatModel.ListM
